@@ -253,11 +253,14 @@ ListChanged(s, kind, loaded(_)) ==
 (* looked up in the new list and keeps its screen position; if it is gone, track-current switches itself off and   *)
 (* plain --track keeps the vertical position.  With tracking off the cursor is left alone (the renderer clamps).   *)
 IndexIn(list, id) == LET I == {i \in 1..Len(list) : list[i] = id} IN IF I = {} THEN -1 ELSE (CHOOSE i \in I : \A j \in I : i <= j) - 1
-ListChangedT(s, oldList, newList, kind, loaded(_), maxItems) ==
+(* firstIsLast (CODE-DERIVED, Merger.First): when the previous list was empty, tracking latches on "the first item" of   *)
+(* the new list - the first INPUT item, which under --tac with an unranked (pass-through) list is the LAST row.          *)
+ListChangedTF(s, oldList, newList, kind, loaded(_), maxItems, firstIsLast) ==
     LET s1 == ListChanged(s, kind, loaded)
         cur == IF s.cy >= 0 /\ Len(oldList) > s.cy THEN oldList[s.cy + 1] ELSE -1
         prev == IF kind # "reload" /\ s.track # 0
-                THEN IF Len(oldList) > 0 THEN cur ELSE IF Len(newList) > 0 THEN newList[1] ELSE -1
+                THEN IF Len(oldList) > 0 THEN cur
+                     ELSE IF Len(newList) > 0 THEN (IF firstIsLast THEN newList[Len(newList)] ELSE newList[1]) ELSE -1
                 ELSE -1
         pos == s.cy - s.offset
         count == Len(newList)
@@ -267,6 +270,7 @@ ListChangedT(s, oldList, newList, kind, loaded(_), maxItems) ==
        ELSE IF s.track = 2 THEN [s1 EXCEPT !.track = 0, !.cy = pos, !.offset = 0]
        ELSE IF s.cy > count THEN [s1 EXCEPT !.cy = count - Min2(count, maxItems) + pos]
        ELSE s1
+ListChangedT(s, oldList, newList, kind, loaded(_), maxItems) == ListChangedTF(s, oldList, newList, kind, loaded, maxItems, FALSE)
 (* the renderer: clamp, then track-current gives up as soon as the focus moved to another item *)
 RenderT(s, e, lastFocus) ==
     LET r == ConstrainView(s, e)
